@@ -156,21 +156,126 @@ theorem goodList_pos (S : LeafSem card leaf) {es : List Expr} (h : GoodList S es
 
 /-! ### constructors -/
 
+theorem TrsoAux.denLProd_filter_notOne (es : List Expr) (σ : Val) :
+    denLProd card leaf (es.filter (fun e => !isOne e)) σ = denLProd card leaf es σ := by
+  induction es with
+  | nil => rfl
+  | cons a l ih =>
+    by_cases h : isOne a = true
+    · rw [List.filter_cons_of_neg (by simp [h]), ih]
+      have ha : a = .one := TrsoAux.isOne_iff.mp h
+      subst ha
+      simp
+    · rw [List.filter_cons_of_pos (by simp [h])]
+      simp [ih]
+
+theorem TrsoAux.denLProd_eq_zero_of_mem {es : List Expr} {e : Expr} (he : e ∈ es) (σ : Val)
+    (h0 : denL card leaf e σ = 0) : denLProd card leaf es σ = 0 := by
+  induction es with
+  | nil => cases he
+  | cons a l ih =>
+    rcases List.mem_cons.mp he with rfl | h
+    · simp [h0]
+    · simp [ih h]
+
+theorem TrsoAux.insertStable_perm {α} (lt : α → α → Bool) (x : α) (l : List α) : (insertStable lt x l).Perm (x :: l) := by
+  induction l with
+  | nil => exact List.Perm.refl _
+  | cons y ys ih =>
+    unfold insertStable
+    split
+    · exact (List.Perm.cons y ih).trans (List.Perm.swap x y ys)
+    · exact List.Perm.refl _
+
+theorem TrsoAux.ssort_perm {α} (lt : α → α → Bool) (l : List α) : (ssort lt l).Perm l := by
+  induction l with
+  | nil => exact List.Perm.refl _
+  | cons x xs ih =>
+    show (insertStable lt x (ssort lt xs)).Perm (x :: xs)
+    exact (TrsoAux.insertStable_perm lt x _).trans (List.Perm.cons x ih)
+
+/-- `Product.safe` denotes the product of its arguments (in `denLProd` form) -/
+theorem TrsoAux.denL_productSafe' (es : List Expr) (σ : Val) :
+    denL card leaf (productSafe es) σ = denLProd card leaf es σ := by
+  unfold productSafe
+  simp only
+  rw [← TrsoAux.denLProd_filter_notOne es σ]
+  generalize es.filter (fun e => !isOne e) = l
+  by_cases hz : l.any isZero = true
+  · rw [if_pos hz]
+    obtain ⟨e, he, hez⟩ := List.any_eq_true.mp hz
+    have : e = .zero := TrsoAux.isZero_iff.mp hez
+    subst this
+    rw [TrsoAux.denLProd_eq_zero_of_mem he σ (by simp)]
+    simp
+  · rw [if_neg hz]
+    match l with
+    | [] => simp
+    | [e] => simp
+    | a :: b :: r =>
+      simp only [TrsoAux.denL_prod']
+      exact TrsoAux.denLProd_perm (TrsoAux.ssort_perm _ _) σ
+
 theorem denL_productSafe (es : List Expr) (σ : Val) :
     denL card leaf (productSafe es) σ = (es.map (denL card leaf · σ)).prod := by
-  sorry
+  rw [TrsoAux.denL_productSafe', denLProd_eq]
 
 theorem denL_mkFrac {n d e : Expr} (h : mkFrac n d = .ok e) (σ : Val) :
     denL card leaf e σ = denL card leaf n σ / denL card leaf d σ := by
-  sorry
+  unfold mkFrac at h
+  split at h
+  · cases h
+  · cases h; simp
 
 theorem denL_mulF : ∀ (fuel : Nat) (a b e : Expr), mulF fuel a b = .ok e →
     ∀ σ, denL card leaf e σ = denL card leaf a σ * denL card leaf b σ := by
-  sorry
+  intro fuel
+  induction fuel with
+  | zero => intro a b e h; simp [mulF] at h
+  | succ fuel ih =>
+    intro a b e h σ
+    unfold mulF at h
+    have fracStep : ∀ {x n d : Expr}, (do mkFrac (← mulF fuel x n) d) = Except.ok e →
+        denL card leaf e σ = denL card leaf x σ * (denL card leaf n σ / denL card leaf d σ) := by
+      intro x n d h
+      obtain ⟨m, hm, hc⟩ := bind_ok h
+      rw [denL_mkFrac hc, ih _ _ _ hm σ, mul_div_assoc]
+    have fracStep' : ∀ {n d b : Expr}, (do mkFrac (← mulF fuel n b) d) = Except.ok e →
+        denL card leaf e σ = denL card leaf n σ / denL card leaf d σ * denL card leaf b σ := by
+      intro n d b h
+      obtain ⟨m, hm, hc⟩ := bind_ok h
+      rw [denL_mkFrac hc, ih _ _ _ hm σ, div_mul_eq_mul_div]
+    cases a with
+    | one => simp at h; cases h; simp
+    | zero => simp at h; cases h; simp
+    | prob pop c p =>
+      cases b with
+      | frac n d => simp only [] at h; rw [fracStep h]; simp
+      | _ => simp at h; cases h; simp [TrsoAux.denL_productSafe']
+    | prod fs =>
+      cases b with
+      | frac n d => simp only [] at h; rw [fracStep h]; simp
+      | _ => simp at h; cases h; simp [TrsoAux.denL_productSafe', TrsoAux.denLProd_append]
+    | sum s r =>
+      cases b with
+      | _ => simp at h; cases h; simp [TrsoAux.denL_productSafe']
+    | frac n d =>
+      cases b with
+      | zero => simp at h; cases h; simp
+      | frac n' d' =>
+        simp only [] at h
+        obtain ⟨x, hx, h⟩ := bind_ok h
+        obtain ⟨y, hy, hc⟩ := bind_ok h
+        rw [denL_mkFrac hc, ih _ _ _ hx σ, ih _ _ _ hy σ]
+        simp [div_mul_div_comm]
+      | _ => simp only [] at h; rw [fracStep' h]; simp
+    | q dm cd =>
+      cases b with
+      | _ => simp at h; cases h; simp [TrsoAux.denL_productSafe']
 
 theorem denL_mul {a b e : Expr} (h : mul a b = .ok e) (σ : Val) :
-    denL card leaf e σ = denL card leaf a σ * denL card leaf b σ := by
-  sorry
+    denL card leaf e σ = denL card leaf a σ * denL card leaf b σ :=
+  denL_mulF _ a b e h σ
 
 theorem denL_truediv {a b e : Expr} (h : truediv a b = .ok e) (σ : Val) :
     denL card leaf e σ = denL card leaf a σ / denL card leaf b σ := by
